@@ -172,6 +172,15 @@ def build_cases(tier):
                 if fl:
                     opts["files_to_include"] = ["@custom_scalars.py"]
                 add("scalar_position", sc_schema, q + "\n", opts, files=fl, tags={"scalar_position", f"scalar_at:{pos}", f"scalar_cfg:{cn}"} | {f"{k}={v}" for k, v in extra.items()})
+    # directories as schema_path / queries_path whose files end without a newline, in a name, a number or a comment
+    ends = {"name": "scalar ZLast", "comment": "scalar ZLast\n# trailing comment without newline", "brace": "type ZLast { a: Int }", "directive": "directive @zz(n: Int = 1) on FIELD"}
+    for en, tail in ends.items():
+        sdir = {"a_first.graphql": corpus.SCHEMA_K.rstrip("\n") + "\n" + tail, "b_second.graphql": "type ZOther { b: Int }", "sub/c_third.gql": "enum ZE { A }"}
+        add("dir_schema", sdir, a_all, tags={"directory_input", f"file_ends_with:{en}", "schema_dir"})
+    qends = {"name": "fragment QF on User { id name }".replace(" }", "\n}") [:-2] + "\n  name", "brace": "query Q1 { user { id } }", "comment": "query Q1 { user { id } }\n# end"}
+    for en, first in {"brace": "query Q1 { user { id } }", "comment": "query Q1 { user { id } }\n# end of file", "number": "query Q1 { nodes { id } w { str5 } user @include(if: true) { id } }"}.items():
+        qdir = {"a.graphql": first, "b.graphql": "query Q2 { node { id } }", "sub/c.gql": FR.rstrip("\n")}
+        add("dir_queries", corpus.SCHEMA_K, qdir, tags={"directory_input", f"file_ends_with:{en}", "queries_dir"})
     # refusals
     add("anon", corpus.SCHEMA_K, "{ user { id } }\n", expect="refusal", tags={"refusal:anonymous"})
     add("anon2", corpus.SCHEMA_K, "query { user { id } }\n", expect="refusal", tags={"refusal:anonymous"})
@@ -287,7 +296,7 @@ def main(tier):
     distinct = set()
     for case, (st, r) in zip(cases, results):
         feats = set(case["tags"]) | {f"label:{case['label']}"}
-        desc = {"label": case["label"], "options": case["options"], "queries": (case["queries"] or "")[:1500], "schema": "K" if case["schema"] is corpus.SCHEMA_K else ("B" if case["schema"] is SCHEMA_B else "fixture"), "expect": case["expect"]}
+        desc = {"label": case["label"], "options": case["options"], "queries": (case["queries"] if isinstance(case["queries"], dict) else (case["queries"] or "")[:1500]), "schema_files": case["schema"] if isinstance(case["schema"], dict) else None, "schema": "K" if case["schema"] is corpus.SCHEMA_K else ("B" if case["schema"] is SCHEMA_B else "fixture"), "expect": case["expect"]}
         if rep.triage:
             rep.seen(feats)
         if st != "ok":
@@ -326,7 +335,8 @@ def replay(path):
     c = rec["case"]
     genpkg.warm()
     for case in build_cases("thorough"):
-        if case["label"] == c["label"] and case["options"] == c["options"] and (case["queries"] or "")[:1500] == c["queries"]:
+        cq = case["queries"] if isinstance(case["queries"], dict) else (case["queries"] or "")[:1500]
+        if case["label"] == c["label"] and case["options"] == c["options"] and cq == c["queries"] and (c.get("schema_files") is None or case["schema"] == c["schema_files"]):
             st, r = pool.run_forked(evaluate, case)
             print(st, r)
             return 1 if st != "ok" or r["problems"] or (r["status"] == "raised") != (case["expect"] != "ok") else 0
